@@ -23,7 +23,7 @@ PROPS = {
     "C04": {"theorems": ["C04_vars_sorted_distinct_complete", "C04_binding_is_position", "C04_every_variable_has_an_index", "C04_arity_flat", "C04_arity_flat_relaxed", "C04_arity_deep", "C04_relaxed_ignores_surplus"], "modes": [{"name": "c04", "quick_n": 250, "thorough_n": 2000, "shard": 25}]},
     "C07": {"theorems": ["C07_unbalanced_rejected", "C07_empty_rejected", "C07_trailing_operator_rejected", "C07_bad_pair_rejected", "C07_operand_count"], "modes": [{"name": "c07", "quick_n": 250, "thorough_n": 2500, "shard": 250}]},
     "C08": {"theorems": ["C08_tokenizer_is_lexer_then_rewrite", "C08_call_form_is_infix_at_any_nesting", "C08_same_tokens_as_infix_text"], "modes": [{"name": "c08", "quick_n": 800, "thorough_n": 6000, "shard": 120}]},
-    "C10": {"theorems": ["C10_deep_binary_application_is_a_homomorphism", "C10_deep_unary_application_is_a_homomorphism", "C10_flat_binary_application_is_a_homomorphism", "C10_flat_unary_application_is_a_homomorphism", "C10_unknown_binary_name_is_error_partial", "C10_unknown_unary_name_is_error_partial", "C10_not_a_unary_operator_is_error_partial"], "modes": [{"name": "c10", "quick_n": 400, "thorough_n": 3000, "shard": 40}, {"name": "c10s", "quick_n": 400, "thorough_n": 3000, "shard": 40}]},
+    "C10": {"theorems": ["C10_deep_binary_application_is_a_homomorphism", "C10_deep_unary_application_is_a_homomorphism", "C10_flat_binary_application_is_a_homomorphism", "C10_flat_unary_application_is_a_homomorphism", "C10_unknown_binary_name_is_error_partial", "C10_unknown_unary_name_is_error_partial", "C10_not_a_unary_operator_is_error_partial", "C10_shortcuts_are_sound_over_the_reals", "C10_is_num_is_sound_on_normal_forms"], "axioms": REAL_AXIOMS, "modes": [{"name": "c10", "quick_n": 400, "thorough_n": 3000, "shard": 40}, {"name": "c10s", "quick_n": 400, "thorough_n": 3000, "shard": 40}]},
     "C11": {"theorems": ["C11_substitution_is_simultaneous", "C11_replacement_evaluated_on_its_own_variables", "C11_named_denotation", "C11_parsed_expressions_qualify", "C11_flat_substitution"], "modes": [{"name": "c11", "quick_n": 400, "thorough_n": 3000, "shard": 40}]},
     "C12": {"theorems": ["C12_flat_unparse_is_source_text_partial"], "modes": [{"name": "c12", "quick_n": 400, "thorough_n": 3000, "shard": 60}, {"name": "c12d", "quick_n": 150, "thorough_n": 1500, "shard": 20}]},
     "C13": {"theorems": ["C13_extended_name_is_variable", "C13_sign_unary_iff", "C13_numeric_literal", "C13_brace_is_one_var", "C13_longest_operator_name_wins"], "modes": [{"name": "c13", "quick_n": 3, "thorough_n": 12, "shard": 120}]},
